@@ -1697,6 +1697,11 @@ bool XMLString::isInList(const XMLCh* const toFind, const XMLCh* const enumList)
     //  We loop through the values in the list via this outer loop. We end
     //  when we hit the end of the enum list or get a match.
     //
+    //  No list (e.g. an enumerated attribute whose declaration was broken and
+    //  parsing went on after the fatal error) or no value: nothing matches.
+    if (!enumList || !toFind)
+        return false;
+
     const XMLCh* listPtr = enumList;
     const XMLSize_t findLen = XMLString::stringLen(toFind);
     while (*listPtr)
